@@ -234,9 +234,13 @@ def run(ctx):
                 srcs.append(subs[0])
             elif isinstance(val, ast.Name):
                 srcs.append(val.id)
+            elif isinstance(val, ast.IfExp) and all(
+                    (isinstance(b, ast.Name)) or (isinstance(b, ast.Constant) and b.value is None) for b in (val.body, val.orelse)):
+                # `opt if <test> else None` (or the reverse): the option, or its "unset" default
+                srcs.extend(b.id for b in (val.body, val.orelse) if isinstance(b, ast.Name))
             else:
                 srcs.append(norm(val))
-        ok = bool(stores) and all(s == o for s in srcs)
+        ok = bool(stores) and bool(srcs) and all(s == o for s in srcs)
         ctx.ob('C17.R1', f'{Q}:slot:{slot}:source', W(stores[0]) if stores else W(new),
                f'{slot} (returned by property {o}) is assigned from the value of option {o}',
                ok, f'assigned from {srcs}' if stores else 'never assigned in __new__')
@@ -517,9 +521,18 @@ def _publication_and_key_hash(ctx, MEMO, Q):
     fm = repo.mod('beartype._util.kind.maplike.utilmapfrozen')
     fcls = repo.find_def(fm.name, 'FrozenDict')
     # the hash is precomputed wherever self._hash is assigned from a hash(...) call (today: __init__)
-    hashes = [a.value for f in ast.walk(fcls) if isinstance(f, ast.FunctionDef) for a in ast.walk(f)
-              if isinstance(a, ast.Assign) and norm(a.targets[0]) == 'self._hash' and isinstance(a.value, ast.Call)
-              and dotted(a.value.func) == 'hash' and a.value.args]
+    # (directly, or through a local: `h = hash(…)` … `self._hash = h`)
+    hashes = []
+    for f in [x for x in ast.walk(fcls) if isinstance(x, ast.FunctionDef)]:
+        for a in ast.walk(f):
+            if not (isinstance(a, ast.Assign) and norm(a.targets[0]) == 'self._hash'):
+                continue
+            v = a.value
+            if isinstance(v, ast.Name):
+                defs_ = [x.value for x in ast.walk(f) if isinstance(x, ast.Assign) and dotted(x.targets[0]) == v.id]
+                v = next((d_ for d_ in defs_ if isinstance(d_, ast.Call) and dotted(d_.func) == 'hash'), v)
+            if isinstance(v, ast.Call) and dotted(v.func) == 'hash' and v.args:
+                hashes.append(v)
     hf = next((f for f in ast.walk(fcls) if isinstance(f, ast.FunctionDef) and any(h in list(ast.walk(f)) for h in hashes)), fcls)
     ctx.require(hashes, 'FrozenDict: no `self._hash = hash(…)` found')
     srcs = []
